@@ -358,7 +358,8 @@ def write_replay(prop, seed, i, plan, failure, minimised_from):
         "replay_cmd": f"{PY} {os.path.join(VERIF, 'check.py')} replay {path}",
     }
     with open(path, "w") as fh:
-        json.dump(doc, fh, indent=1, sort_keys=True)
+        # no sort_keys: key order inside a plan can be significant
+        json.dump(doc, fh, indent=1)
         fh.write("\n")
     return path
 
